@@ -568,7 +568,10 @@ package fsutil
 //@   property C01 C05
 //@   requires dw != nil && st != nil
 //@   modifies heap
-//@   effects Notify DataCb HashNew DigestFinal PipeClose Utimes
+//@   effects Notify DataCb HashNew DigestFinal PipeClose Utimes Chmod
+// F42: a write by a receiver without CAP_FSETID clears set-uid/set-gid, so a mode carrying one of
+// them is applied (again) after the content and before the final mtime
+//@   ensures setid_after_content: result == nil && os.FileMode(st.Mode) & (os.ModeSetuid | os.ModeSetgid) != 0 ==> cnt(Chmod) > old(cnt(Chmod)) && arg(Chmod, 0) == dest && arg(Chmod, 1) == os.FileMode(st.Mode) && when(DataCb) < when(Chmod) && when(Chmod) < when(Utimes)
 //@   ensures mtime_last: result == nil ==> cnt(Utimes) == old(cnt(Utimes)) + 1 && arg(Utimes, 0) == dest && arg(Utimes, 1) * 1000000000 + arg(Utimes, 2) == st.ModTime && when(Utimes) == clk()
 //@   ensures content_first: result == nil ==> cnt(DataCb) == old(cnt(DataCb)) + 1 && when(DataCb) < when(Utimes)
 //@   ensures notify_once: result == nil && dw.opt.NotifyCb != nil ==> cnt(Notify) == old(cnt(Notify)) + 1 && arg(Notify, 0) == ChangeKindAdd && arg(Notify, 1) == p
